@@ -449,6 +449,8 @@ func (r *runnableStep) Start(_ map[string]any, runID string, stageChangeHandler 
 		stageChangeHandler: stageChangeHandler,
 		logger:             r.logger,
 	}
+	// Register the goroutine before it is launched, so that Close() waits for it even if it has not been scheduled yet.
+	rs.wg.Add(1)
 	go rs.run()
 	return rs, nil
 }
@@ -586,7 +588,6 @@ func (r *runningStep) ForceClose() error {
 }
 
 func (r *runningStep) run() {
-	r.wg.Add(1)
 	defer func() {
 		r.logger.Debugf("foreach run function done")
 		r.wg.Done()
